@@ -228,6 +228,8 @@ def run_case(item):
         return run_rerun_case(item)
     if kind == "deferplan":
         return run_deferplan_case(item)
+    if kind == "optbelow":
+        return run_optbelow_case(item)
     if kind in ("overlap", "overlapfine"):
         project, meta = gen_overlap(seed, fine=(kind == "overlapfine"))
     else:
@@ -788,6 +790,75 @@ def run_detached_input_completion_scenario() -> dict:
                      "commands": [[c["label"], c["start"], c["stop"], c["rc"]] for c in r.commands],
                      "gate_releases": [t[0] for t in r.schedule_trace]}
     return out
+
+
+def _optional_below_rerun_project(seed=None):
+    """T = ./sub.py defines S = ./n.py (a nested script) and is deferred by amend(inp=f.txt); S defines the
+    OPTIONAL step `o` with output z.txt and succeeds; `q` builds f.txt and T is dispatched again
+    (reset_for_rerun detaches S and, below it, `o`) and defines S again (full recycle with `o` as product).
+    ./w.py, a step of another branch, defines the only consumer `c` of z.txt."""
+    rng = random.Random(f"c02-optbelow-{seed}") if seed is not None else None
+    extra = rng.randint(0, 2) if rng else 0          # further optional steps below S nobody consumes
+    plan = [{"op": "static", "paths": ["n.py", "sub.py", "w.py"]}, {"op": "plan", "label": "./sub.py"},
+            {"op": "run", "label": "q", "shell": True, "out": ["f.txt"]},
+            {"op": "run", "label": "./w.py", "out": ["w.txt"]}]
+    if rng:
+        rng.shuffle(plan[1:])
+        plan = [plan[0]] + plan[1:]
+    sub = [{"op": "gate", "name": "sub:top"}, {"op": "run", "label": "./n.py"}, {"op": "gate", "name": "sub:mid"},
+           {"op": "amend", "inp": ["f.txt"]}, {"op": "read", "paths": ["f.txt"]}]
+    nn = [{"op": "run", "label": "o", "shell": True, "out": ["z.txt"], "optional": True}]
+    commands = {"q": [{"op": "write", "path": "f.txt", "content": "F\n"}], "o": [{"op": "auto"}], "c": [{"op": "auto"}]}
+    for i in range(extra):
+        nn.append({"op": "run", "label": f"x{i}", "shell": True, "out": [f"x{i}.txt"], "optional": True})
+        commands[f"x{i}"] = [{"op": "auto"}]
+    if rng:
+        rng.shuffle(nn)
+    ww = [{"op": "gate", "name": "w:req"}, {"op": "run", "label": "c", "shell": True, "inp": ["z.txt"], "out": ["c.txt"]},
+          {"op": "write", "path": "w.txt"}]
+    return e3.Project(sources={}, program={"scripts": {"plan.py": plan, "sub.py": sub, "n.py": nn, "w.py": ww},
+                                           "commands": commands})
+
+
+def optional_below_rerun_schedules(seed=0) -> list:
+    first = ["start:./plan.py", "end:./plan.py", "start:./sub.py", "sub:top", "sub:mid", "end:./sub.py",
+             "start:./n.py", "end:./n.py", "start:./w.py"]
+    again = ["start:./sub.py", "sub:top", "sub:mid", "end:./sub.py"]
+    both = dict(policy="fifo", points=["start", "end"])
+    return [
+        ("j1", dict(njob=1)),
+        # the consumer is defined before T is dispatched again
+        ("j4-before-restart", dict(njob=4, schedule=dict(both, order=first + ["w:req", "end:./w.py", "start:q", "end:q"] + again))),
+        # ... between T's restart (S and `o` detached) and T's re-definition of S, with a free job slot
+        # (the job loop polls the scheduler in between)
+        ("j4-inside-window", dict(njob=4, schedule=dict(both, order=first + ["start:q", "end:q", "start:./sub.py", "w:req",
+                                                                             "end:./w.py", "sub:top", "sub:mid", "end:./sub.py"]))),
+        ("j4-inside-window-w-late", dict(njob=4, schedule=dict(both, order=first + ["start:q", "end:q", "start:./sub.py", "w:req",
+                                                                                    "sub:top", "sub:mid", "end:./sub.py", "end:./w.py"]))),
+        # ... after the re-definition
+        ("j4-after-redefine", dict(njob=4, schedule=dict(both, order=first + ["start:q", "end:q", "start:./sub.py", "sub:top",
+                                                                              "w:req", "end:./w.py", "sub:mid", "end:./sub.py"]))),
+        ("j4-seed", dict(njob=4, schedule={"seed": 404 + seed % 971, "points": ["start", "end"]})),
+    ]
+
+
+def run_optbelow_case(item):
+    """E3 family `optbelow`: an OPTIONAL producer two levels below a sub-plan that runs twice in one build;
+    its only consumer is defined by another branch before / inside / after the window in which it is detached."""
+    kind, seed, _ = item
+    project = _optional_below_rerun_project(seed)
+    try:
+        res = run_schedules(project, schedules=optional_below_rerun_schedules(seed), resumed=False)
+    except Exception as e:  # noqa: BLE001 - reported by the caller
+        return {"item": item, "meta": {}, "crash": f"{type(e).__name__}: {e}", "project": project.to_json()}
+    diffs = compare(res, texts=False)
+    return {"item": item, "meta": {}, "cls": res["j1"]["cls"], "nrej": len(res["j1"]["rejected"]), "diffs": diffs,
+            "max_running": max(r["max_running"] or 0 for r in res.values()),
+            "profile": pf.merge(r.get("profile") for n, r in res.items() if n != "j1"),
+            "profiles": {n: r.get("profile") or {} for n, r in res.items()},
+            "by_schedule": {n: [r["cls"], [x[3][:80] for x in r["rejected"]], [x[0] for x in r["rejected"]]]
+                            for n, r in res.items()},
+            "project": project.to_json() if diffs else None}
 
 
 def run_detached_issuer_scenario() -> dict:
